@@ -108,11 +108,9 @@ def comb_odd_connector(a):
 
 
 def unexported_name(a):
+    """an object of a class outside django.db.models (written as a bare, never imported name)"""
     def bad(x):
-        if x['t'] == 'obj' and x['type'] != COMB:
-            p = x['type']
-            return not (p.startswith('django.db.models.') and '.' not in p[len('django.db.models.'):])
-        return False
+        return x['t'] == 'obj' and x['type'] != COMB and not x['type'].startswith('django.db.models.')
     return _any(a, bad)
 
 
@@ -184,7 +182,7 @@ def classify_value(a, real=None):
             return [F_Q]
         return []
     if real is not None and 'load_error' in real:
-        if real['load_error'] in ('AttributeError', 'NameError') and unexported_name(a):
+        if real['load_error'] == 'NameError' and unexported_name(a):
             return [F_NAME]
         if real['load_error'] in ('SyntaxError', 'NotImplementedError', 'TypeError') and comb_odd_connector(a):
             return [F_COMB]
@@ -244,7 +242,8 @@ def value_level(ctx, n):
            'single_child_full': bool(pyr.get('q_single_child_full')),
            'comb_operators': [list(p) for p in pyr.get('comb_operators', [])],
            'comb_methods': [list(p) for p in pyr.get('comb_methods', [])],
-           'comb_parens': bool(pyr.get('comb_parens'))}
+           'comb_parens': bool(pyr.get('comb_parens')), 'keep_submodules': bool(pyr.get('keep_submodules'))}
+    pyast.KEEP_SUBMODULES = cfg['keep_submodules']
     vals = [gen_c13_value(ctx.rng) for _ in range(n)]
     # corner cases first
     from django.db.models import F, Q, Value
@@ -492,7 +491,7 @@ WHAT = {
          '(TypeError), a single-child Q loses a non-default connector',
     F_COMB: 'CombinedExpressionSerialization writes `lhs <connector> rhs` without parentheses and with Django\'s connector '
             'text as the operator',
-    F_NAME: 'objects are rendered as models.<Class> / <Class> from the last component of their path, without an import',
+    F_NAME: 'objects of classes outside django.db.models are rendered as a bare class name that nothing imports',
     F_QSHAPE: 'a Q whose children include a non-negated Q that `&`/`|` would merge is rendered with operators and comes '
               'back flattened',
 }
